@@ -19,7 +19,7 @@ from props import lib_exec as X
 from props import lib_server as L
 
 GENERATORS = ["server", "exec", "store", "pdu", "framer_tcpascii", "framer_rtubin", "exec_other"]
-PROP_FILES = ["C09_e2e", "C09_e2e_ascii", "C09_e2e_rtu"]
+PROP_FILES = ["C09_e2e", "C09_e2e_ascii", "C09_e2e_rtu", "C09_e2e_ext"]
 CASE_DEPS = ["theories/CorrE2E.vo", "theories/CorrE2ESerial.vo", "theories/CorrE2EExt.vo"]
 TRUSTED = [
     "end-to-end composition (Props/C09_e2e.v): hand-written glue in theories/EndToEnd.v — request object -> execute "
